@@ -2,6 +2,7 @@ package v2
 
 import (
 	"bytes"
+	"crypto/sha256"
 	"encoding/binary"
 	"fmt"
 	"os"
@@ -156,6 +157,9 @@ func (s *session) compare(cur tla.State, a string, actor int) error {
 			if s.diverged {
 				return s.refGuard()
 			}
+		}
+		for _, e := range expect {
+			s.expSum[x] = append(s.expSum[x], sha256.Sum256(e))
 		}
 		// 2. ignore flag (observable on the reference endpoint only)
 		if actor == x && okind == "ignored" {
